@@ -1,6 +1,165 @@
-//! C17: not implemented yet.
-use serde_json::{json, Value};
+//! C17: mdat Merkle accumulator and the BMFF placeholder workflow.
+//! kinds:
+//!  {k:"acc", fixed:null|bytes, fixed_kb:null|kb, calls:[[mdat_id, large, hex]..]}
+//!      -> recorded leaves (length, digest) and pending remainders per mdat, index/class of the first failing call
+//!  {k:"e2e", fixed_kb:null|kb, nleaves:int, mdats:[{large, len, seed, splits:[chunk lengths]}..]}
+//!      -> generated MP4 (ftyp free mdat.. moov), Builder::placeholder / hash_bmff_mdat_bytes / update_hash_from_stream /
+//!         sign_embeddable, manifest patched over the free box, read back: MerkleMaps + validation report
+use std::io::Cursor;
 
-pub fn run(_case: &Value) -> Value {
-    json!({"r": "unimplemented"})
+use c2pa::{
+    verif_hooks::c17::{verif_builder_bmff_hash, MerkleAccumulator},
+    Builder,
+};
+use serde_json::{json, Map, Value};
+
+use crate::{e2e, util::*};
+
+pub fn payload(len: usize, seed: u64) -> Vec<u8> {
+    let mut x = seed & 0x7fff_ffff;
+    let mut v = Vec::with_capacity(len);
+    for _ in 0..len {
+        x = (x.wrapping_mul(1103515245).wrapping_add(12345)) & 0x7fff_ffff;
+        v.push(((x >> 16) & 0xff) as u8);
+    }
+    v
+}
+
+fn bx(fourcc: &[u8; 4], body: &[u8]) -> Vec<u8> {
+    let mut v = ((body.len() + 8) as u32).to_be_bytes().to_vec();
+    v.extend_from_slice(fourcc);
+    v.extend_from_slice(body);
+    v
+}
+
+fn acc(case: &Value) -> Value {
+    let mut a = MerkleAccumulator::new(case["alg"].as_str().unwrap_or("sha256")).expect("accumulator");
+    if !case["fixed_kb"].is_null() {
+        a.set_fixed_size(u64_of(&case["fixed_kb"]) as usize);
+    }
+    if !case["fixed"].is_null() {
+        a.fixed_size = Some(u64_of(&case["fixed"]) as usize);
+    }
+    let mut first_err = Value::Null;
+    for (k, c) in case["calls"].as_array().cloned().unwrap_or_default().iter().enumerate() {
+        let id = u64_of(&c[0]) as usize;
+        let large = c[1].as_bool().unwrap_or(false);
+        let data = hexd(&c[2]);
+        if let Err(e) = a.add_merkle_leaf(id, large, &data) {
+            first_err = json!([k, err_class(&e)]);
+            break;
+        }
+    }
+    let mut leaves = Map::new();
+    for (id, l) in a.merkle_leaves.iter() {
+        leaves.insert(id.to_string(), Value::Array(l.iter().map(|(n, h)| json!([n, hexe(h)])).collect()));
+    }
+    let mut ids: Vec<&usize> = a.fixed_size_remainder.keys().collect();
+    ids.sort();
+    let mut rem = Map::new();
+    for id in ids {
+        rem.insert(id.to_string(), json!(hexe(&a.fixed_size_remainder[id])));
+    }
+    json!({"r": "ok", "leaves": leaves, "rem": rem, "err": first_err, "fixed": a.fixed_size})
+}
+
+fn e2e_run(case: &Value) -> Value {
+    let fmt = "video/mp4";
+    let mut builder = match Builder::from_context(e2e::context(None)).with_definition(e2e::minimal_manifest("c17")) {
+        Ok(b) => b,
+        Err(e) => return json!({"r": "err", "at": "definition", "kind": err_class(&e)}),
+    };
+    if !case["fixed_kb"].is_null() {
+        builder.set_bmff_hash_fixed_leaf_size(u64_of(&case["fixed_kb"]) as usize);
+    }
+    let ph = match builder.placeholder(fmt) {
+        Ok(p) => p,
+        Err(e) => return json!({"r": "err", "at": "placeholder", "kind": err_class(&e), "detail": e.to_string()}),
+    };
+    let nleaves = case["nleaves"].as_u64().unwrap_or(32) as usize;
+    let free_size = ph.len() + 64 * nleaves + 2048;
+
+    // ---- the asset, as an application would write it
+    let mut ftyp_body = b"isom".to_vec();
+    ftyp_body.extend_from_slice(&0x200u32.to_be_bytes());
+    ftyp_body.extend_from_slice(b"isomiso2mp41");
+    let mut asset = bx(b"ftyp", &ftyp_body);
+    let free_off = asset.len();
+    asset.extend_from_slice(&bx(b"free", &vec![0u8; free_size - 8]));
+    let mdats = case["mdats"].as_array().cloned().unwrap_or_default();
+    let mut payloads = vec![];
+    for m in &mdats {
+        let large = m["large"].as_bool().unwrap_or(false);
+        let p = payload(u64_of(&m["len"]) as usize, m["seed"].as_u64().unwrap_or(1));
+        if large {
+            asset.extend_from_slice(&1u32.to_be_bytes());
+            asset.extend_from_slice(b"mdat");
+            asset.extend_from_slice(&((p.len() + 16) as u64).to_be_bytes());
+        } else {
+            asset.extend_from_slice(&((p.len() + 8) as u32).to_be_bytes());
+            asset.extend_from_slice(b"mdat");
+        }
+        asset.extend_from_slice(&p);
+        payloads.push((large, p));
+    }
+    let mut mvhd = vec![0u8; 100];
+    mvhd[12..16].copy_from_slice(&1000u32.to_be_bytes()); // timescale
+    mvhd[20..24].copy_from_slice(&0x0001_0000u32.to_be_bytes()); // rate
+    mvhd[96..100].copy_from_slice(&2u32.to_be_bytes()); // next track id
+    asset.extend_from_slice(&bx(b"moov", &bx(b"mvhd", &mvhd)));
+
+    // ---- feed the mdat payloads chunk by chunk
+    for (id, (m, (large, p))) in mdats.iter().zip(payloads.iter()).enumerate() {
+        let mut pos = 0usize;
+        for s in m["splits"].as_array().cloned().unwrap_or_default() {
+            let l = u64_of(&s) as usize;
+            if let Err(e) = builder.hash_bmff_mdat_bytes(id, &p[pos..pos + l], *large) {
+                return json!({"r": "err", "at": "hash_bmff_mdat_bytes", "kind": err_class(&e), "detail": e.to_string()});
+            }
+            pos += l;
+        }
+        assert_eq!(pos, p.len(), "splits must cover the payload");
+    }
+    if let Err(e) = builder.update_hash_from_stream(fmt, &mut Cursor::new(asset.clone())) {
+        return json!({"r": "err", "at": "update_hash_from_stream", "kind": err_class(&e), "detail": e.to_string()});
+    }
+    let maps: Vec<Value> = match verif_builder_bmff_hash(&builder) {
+        Ok(bh) => bh
+            .merkle()
+            .map(|v| {
+                v.iter()
+                    .map(|mm| {
+                        json!({"id": mm.local_id, "count": mm.count, "fixed": mm.fixed_block_size, "var": mm.variable_block_sizes,
+                               "hashes": mm.hashes.iter().map(|h| hexe(h)).collect::<Vec<_>>()})
+                    })
+                    .collect()
+            })
+            .unwrap_or_default(),
+        Err(e) => return json!({"r": "err", "at": "find_assertion", "kind": err_class(&e)}),
+    };
+    let signed = match builder.sign_embeddable(fmt) {
+        Ok(s) => s,
+        Err(e) => return json!({"r": "err", "at": "sign_embeddable", "kind": err_class(&e), "detail": e.to_string(), "maps": maps}),
+    };
+    if signed.len() + 8 > free_size {
+        return json!({"r": "err", "at": "patch", "kind": "ManifestLargerThanFreeBox", "maps": maps});
+    }
+    // ---- overwrite the free box with the manifest followed by a smaller free box (same total size)
+    asset[free_off..free_off + signed.len()].copy_from_slice(&signed);
+    let rest = free_size - signed.len();
+    let fb = bx(b"free", &vec![0u8; rest - 8]);
+    asset[free_off + signed.len()..free_off + free_size].copy_from_slice(&fb);
+
+    match e2e::read(e2e::context(None), fmt, &asset) {
+        Ok(r) => json!({"r": "ok", "maps": maps, "report": e2e::report(&r), "asset_len": asset.len()}),
+        Err(e) => json!({"r": "err", "at": "read", "kind": err_class(&e), "detail": e.to_string(), "maps": maps}),
+    }
+}
+
+pub fn run(case: &Value) -> Value {
+    match case["k"].as_str().unwrap_or("") {
+        "acc" => acc(case),
+        "e2e" => e2e_run(case),
+        _ => json!({"r": "badcase"}),
+    }
 }
